@@ -96,8 +96,8 @@ class Driver(concdrv.ConcMixin):
     SPEC = dict(header='From AV Require Import Lib.Base Model.ChanAlloc Model.Life.',
                 tin='(bool * list lop)', tobs='(list lobs)', eqb='life_obs_eqb',
                 model='life_model', prop='life_prop_ok', nontriv='life_nontrivial')
-    CONC = [('teardown', gen_teardown, 'conc_teardown_ok', 40, 500),
-            ('hbrace', gen_hbrace, 'conc_teardown_ok', 30, 500)]
+    CONC = [('teardown', gen_teardown, 'conc_teardown_ok', 100, 1000),
+            ('hbrace', gen_hbrace, 'conc_teardown_ok', 80, 800)]
     LINE_P = [0.0, 0.05, 0.15, 0.3]
     RULE = ('API-conforming histories of 2..12 operations (see module docstring), heartbeat '
             '0 or 60 s, exhaustive over all open/close behaviours for the shapes '
